@@ -95,6 +95,17 @@ def serverChallenge (H : Hs) (tempTok : Option Nat) (c : Conn) (_t : Int) (data 
 def serverRole (H : Hs) (tok : Nat) (tempTok : Option Nat) : Role :=
   ⟨serverClientHello H tok, fun c _ _ => (c, [], none), serverChallenge H tempTok⟩
 
+/-- the server role as the loop sees it: `_onConnect` calls the user's `connect` handler from
+    inside `_recvChallengeResponse`, i.e. between the challenge message and the remaining messages
+    of the same datagram; `onConnect` is what that handler does to the connection -/
+def serverRoleOn (H : Hs) (tok : Nat) (tempTok : Option Nat) (onConnect : Conn → Conn) : Role :=
+  ⟨serverClientHello H tok, fun c _ _ => (c, [], none),
+   fun c t d =>
+     if (serverChallenge H tempTok c t d).2.1.contains .promoted then
+       (onConnect (serverChallenge H tempTok c t d).1, (serverChallenge H tempTok c t d).2.1,
+        (serverChallenge H tempTok c t d).2.2)
+     else serverChallenge H tempTok c t d⟩
+
 /-- `ServerClientConnection.update()` at clock `t`: build (if the send interval elapsed) and time
     out pending datagrams with `>`; an exception from the build propagates before the time-outs -/
 def serverUpdate (sz : Sizes) (c : Conn) (t : Int) : Conn × List Event × Except Err (Option Packet) :=
